@@ -5,7 +5,8 @@ from ..index import AnalysisError, dotted
 from ..astutil import text, short, endswith, calls_in, walk_no_nested
 from .. import jsonshape
 from ..dataflow import DefUse
-from ._h_F import ifn, Res, res_of, call_arg, absent, alias_group, need, repo_callees
+from ._h_F import (ifn, Res, res_of, call_arg, absent, alias_group, need, repo_callees,
+                   iterations, atoms)
 
 EXPLANATION = (
   "Decides the chain shape of the migrations registry (versions unique, within 1..SCHEMA_VERSION, "
@@ -17,7 +18,12 @@ EXPLANATION = (
   "membership, arithmetic, use as a hashable key) sits under an isinstance/None/truthiness guard "
   "that establishes the shape, or inside a try catching Exception (R2); that the interpreter the "
   "migrations run on (TableDataSet) keeps no state computed from a table's row ids that a "
-  "row-changing action method fails to refresh (R3). Not decided: that the "
+  "row-changing action method fails to refresh (R3), and reads a column's schema type only for "
+  "columns an action omits, since unknown columns are registered without one (R4); that numbers "
+  "parsed out of str.split pieces come only from non-empty pieces and index a map only under a "
+  "membership test (R5). R2 also interprets, one level deep, functions of other modules that a "
+  "migration calls and that parse JSON text themselves. Not decided: "
+  "that the "
   "resulting metadata equals the current schema (the baseline's test_migrations runs the chain on "
   "an empty document).")
 
@@ -54,6 +60,8 @@ def check(run, repo, tier):
   r1_chain(run, w, migs)
   r2_shapes(run, w, migs)
   r3_interpreter_state(run, w)
+  r4_incomplete_columns(run, w)
+  r5_text_pieces(run, w, migs)
 
 
 def _is_apply(r, n, e, p):
@@ -234,15 +242,51 @@ def r2_shapes(run, w, migs):
     seen = set()
     for op in ops:
       key = (short(op.node, 70), op.need)
-      if key in seen:
+      via = getattr(op, "via", ())
+      if (key, via) in seen:
         continue
-      seen.add(key)
+      seen.add((key, via))
       total += 1
-      run.ob(R2, fi.qualname, "%s [%s]" % key, "operation is applied only to a JSON value whose "
+      run.ob(R2, fi.qualname, ("%s [%s]" % key) + ("".join(" via " + v for v in via)), "operation is applied only to a JSON value whose "
              "kind was established (possible kinds here: %s)" % ",".join(sorted(op.value.kinds)),
              op.ok, fi=fi, node=op.node,
              witness=None if op.ok else "a Text cell holding valid JSON of another shape makes "
              "this raise; possible kinds: %s" % ",".join(sorted(op.value.kinds)))
+  # Calls from a migration into other modules of the repository: a callee that itself parses JSON
+  # text (it is handed the raw Text cell) is interpreted the same way, one level deep.
+  seen_callees = {}
+  for v, fi in sorted(migs, key=lambda x: x[0] or 0):
+    fn = w.fn_of(fi)
+    for c in [x for x in ast.walk(fi.node) if isinstance(x, ast.Call)]:
+      for t in repo_callees(w, fn, c):
+        if t.module is fi.module or t.qualname in seen_callees:
+          continue
+        parses = any(isinstance(x, ast.Call) and (dotted(x.func) or "") in SOURCES
+                     for x in ast.walk(t.node))
+        seen_callees[t.qualname] = (t, fi) if parses else None
+  for q, ent in sorted(seen_callees.items()):
+    if ent is None:
+      continue
+    t, via = ent
+    def callee(t=t, via=via):
+      nonlocal total
+      ops = jsonshape.analyse_function(t.node, SOURCES, t.qualname)
+      seen = set()
+      for op in ops:
+        key = (short(op.node, 70), op.need)
+        if key in seen:
+          continue
+        seen.add(key)
+        total += 1
+        run.ob(R2, t.qualname, "%s [%s]" % key, "operation is applied only to a JSON value whose "
+               "kind was established (possible kinds here: %s); reached from %s"
+               % (",".join(sorted(op.value.kinds)), via.qualname),
+               op.ok, fi=t, node=op.node,
+               witness=None if op.ok else "a Text cell holding valid JSON of another shape makes "
+               "this raise; possible kinds: %s" % ",".join(sorted(op.value.kinds)))
+    run.guard(callee)
+  run.extra["json_shape_callees_outside_migrations"] = sorted(q for q, e in seen_callees.items()
+                                                              if e is not None)
   run.extra["json_shape_operations_checked"] = total
   # safe_parse itself: json.loads fenced by except ValueError returning a dict
   sp = ifn(w, "migrations.safe_parse")
@@ -368,6 +412,146 @@ def r3_interpreter_state(run, w):
              "next action that uses it works on stale positions" % x, fi=fn.fi)
 
 
+# ------------------------------------------------------------------------------------------- R4
+def r4_incomplete_columns(run, w):
+  R4 = run.rule("C25-R4", "TableDataSet reads a column's schema 'type' only where a default is "
+                "needed (the action omits the column): create_migrations registers unknown "
+                "columns with a col-info that has no 'type'", floor=1)
+  cm = ifn(w, "migrations.create_migrations")
+  # col-infos made up for unknown (deprecated) columns: dict literals with an 'id' and no 'type'
+  incomplete = [d for d in ast.walk(cm.node) if isinstance(d, ast.Dict) and
+                all(k is not None for k in d.keys) and
+                "'id'" in [text(k) for k in d.keys] and "'type'" not in [text(k) for k in d.keys]]
+  if not incomplete:
+    run.ob(R4, cm.qualname, "every made-up col-info carries a 'type'",
+           "no column is registered without a type", True, fi=cm.fi, nontrivial=False)
+    return
+  ci = w.repo.cls("table_data_set.TableDataSet")
+  n_reads = 0
+  for name, fi in sorted(ci.methods.items()):
+    fn = ifn(w, fi.qualname)
+    r = res_of(w, fn)
+    params = set(fi.params())
+    for n in r.cfg.nodes:
+      for root in n.exprs:
+        for x in ast.walk(root):
+          if not (isinstance(x, ast.Subscript) and isinstance(x.slice, ast.Constant) and
+                  x.slice.value == "type" and isinstance(x.ctx, ast.Load)):
+            continue
+          base = r.expand(x.value, n.id)
+          if _self_attr(r, base, n.id) != "_schema":
+            continue
+          # self._schema[<table>][<column>]['type']
+          if not (isinstance(base, ast.Subscript) and isinstance(base.value, ast.Subscript)):
+            raise AnalysisError("%s: read of a schema 'type' not understood: %s"
+                                % (fi.qualname, short(x, 60)))
+          col = text(base.slice)
+          n_reads += 1
+          # "<column> in <what the action supplies>": the container the column's values are
+          # then taken from (<container>[<column>])
+          supplies = {text(y.value) for y in ast.walk(fn.node) if isinstance(y, ast.Subscript)
+                      and text(y.slice) == col and isinstance(y.value, ast.Name)}
+          def omitted(a, node, col=col, r=r, supplies=supplies):
+            return isinstance(a, ast.Compare) and isinstance(a.ops[0], ast.In) and \
+                (text(a.left) == col or r.norm(a.left, node.id) == col) and \
+                isinstance(a.comparators[0], ast.Name) and \
+                (a.comparators[0].id in params or a.comparators[0].id in supplies)
+          ok = r.known(n.id, omitted, False, within=x)
+          run.ob(R4, fn.qualname, "self._schema[...][%s]['type']" % col,
+                 "the type of a column is looked up only when the action leaves the column out "
+                 "(so a default value is needed); columns the action supplies may have been "
+                 "registered by create_migrations without a type", ok, fi=fn.fi, node=x,
+                 witness=None if ok else "a pre-existing deprecated column is registered as "
+                 "{'id': col_id}: this lookup raises KeyError('type') for it")
+  need(n_reads, "a read of a column's schema 'type' in TableDataSet", None)
+
+
+# ------------------------------------------------------------------------------------------- R5
+def _is_split(e):
+  return isinstance(e, ast.Call) and isinstance(e.func, ast.Attribute) and \
+      e.func.attr in ("split", "rsplit", "splitlines")
+
+
+def _in_try(fnode, node):
+  for t in ast.walk(fnode):
+    if isinstance(t, ast.Try) and any(x is node for b in t.body for x in ast.walk(b)) and \
+        any(h.type is None or any(nm in text(h.type) for nm in ("Exception", "ValueError",
+                                                                 "KeyError", "LookupError"))
+            for h in t.handlers):
+      return True
+  return False
+
+
+def r5_text_pieces(run, w, migs):
+  R5 = run.rule("C25-R5", "numbers parsed out of pieces of text (str.split) are parsed only from "
+                "non-empty pieces, and such a number indexes a map only under a membership test",
+                floor=1)
+  n_ob = 0
+  for v, fi in sorted(migs, key=lambda x: x[0] or 0):
+    fn = ifn(w, fi.qualname)
+    r = res_of(w, fn)
+    parsed_lists = set()       # locals holding numbers parsed out of split pieces
+    its = iterations(fn.node)
+    for (it, tg, body, owner) in its:
+      at = r.nodes_of(owner) if isinstance(owner, ast.For) else r.node_of_expr(it)
+      if not at or not isinstance(tg, ast.Name):
+        continue
+      src = r.expand(it, at[0].id)
+      if not _is_split(src):
+        continue
+      piece = tg.id
+      for b in body:
+        for c in [x for x in ast.walk(b) if isinstance(x, ast.Call)]:
+          if dotted(c.func) in ("int", "float") and len(c.args) == 1 and \
+              isinstance(c.args[0], ast.Name) and c.args[0].id == piece:
+            def nonempty(a, node, piece=piece):
+              if isinstance(a, ast.Name):
+                return a.id == piece
+              return isinstance(a, ast.Call) and isinstance(a.func, ast.Attribute) and \
+                  a.func.attr in ("isdigit", "strip") and text(a.func.value) == piece
+            if isinstance(owner, ast.For):
+              cn = r.node_of_expr(c)
+              ok = bool(cn) and r.known(cn[0].id, nonempty, True, within=c)
+            else:
+              conds = [x for g in owner.generators for x in g.ifs]
+              ok = any(p and nonempty(a, None) for cd in conds for (a, p) in atoms(cd, True))
+            ok = ok or _in_try(fn.node, c)
+            n_ob += 1
+            run.ob(R5, fn.qualname, "%s(%s) for %s in %s" % (dotted(c.func), piece, piece,
+                                                             short(src, 50)),
+                   "a piece of split text is turned into a number only when it is not empty "
+                   "(''.split('_') is [''])", ok, fi=fn.fi, node=c)
+            # the list these numbers are collected into
+            an = r.node_of_expr(owner) if not isinstance(owner, ast.For) else []
+            if an and an[0].kind == "stmt" and isinstance(an[0].stmt, ast.Assign) and \
+                isinstance(an[0].stmt.targets[0], ast.Name):
+              parsed_lists.add(an[0].stmt.targets[0].id)
+    # a number parsed from text used as a key
+    for (it, tg, body, owner) in its:
+      if not (isinstance(it, ast.Name) and it.id in parsed_lists and isinstance(tg, ast.Name)):
+        continue
+      for b in body:
+        for sub in [x for x in ast.walk(b) if isinstance(x, ast.Subscript) and
+                    isinstance(x.ctx, ast.Load) and isinstance(x.slice, ast.Name) and
+                    x.slice.id == tg.id]:
+          base = text(sub.value)
+          def member(a, node, key=tg.id, base=base):
+            return isinstance(a, ast.Compare) and isinstance(a.ops[0], ast.In) and \
+                text(a.left) == key and text(a.comparators[0]) == base
+          if isinstance(owner, ast.For):
+            cn = r.node_of_expr(sub)
+            ok = bool(cn) and r.known(cn[0].id, member, True, within=sub)
+          else:
+            conds = [x for g in owner.generators for x in g.ifs]
+            ok = any(p and member(a, None) for cd in conds for (a, p) in atoms(cd, True))
+          ok = ok or _in_try(fn.node, sub)
+          n_ob += 1
+          run.ob(R5, fn.qualname, "%s[%s] for %s in %s" % (base, tg.id, tg.id, it.id),
+                 "a reference parsed out of text may name something that no longer exists: it "
+                 "is looked up only under a membership test", ok, fi=fn.fi, node=sub)
+  need(n_ob, "a number parsed from split text in the migrations", None)
+
+
 M = "sandbox/grist/migrations.py"
 VARIANTS = [
   ("m15-truthy-guard", M, "    if isinstance(filter_spec, dict) and str(f.colRef) in filter_spec:",
@@ -402,6 +586,27 @@ VARIANTS = [
    "    rowid_map = cache.get(table_id)\n"
    "    if rowid_map is None:\n"
    "      rowid_map = self._row_index[table_id] = {r:i for i, r in enumerate(table_data.row_ids)}\n", "C25-R3"),
+  ("type-looked-up-for-every-column", "sandbox/grist/table_data_set.py",
+   """      if col in columns:
+        values.extend(columns[col])
+      else:
+        col_info = self._schema[table_id][col]
+        default = get_type_default(col_info['type'])
+        values.extend([default] * len(row_ids))""",
+   """      col_info = self._schema[table_id][col]
+      default = get_type_default(col_info['type'])
+      if col in columns:
+        values.extend(columns[col])
+      else:
+        values.extend([default] * len(row_ids))""", "C25-R4"),
+  ("callee-no-dict-check", "sandbox/grist/summary.py", """  if not isinstance(parsed, dict):
+    # Valid json, but not an object of options: there is nothing to omit.
+    return options
+""", "", "C25-R2"),
+  ("m7-empty-piece-parsed", M, """m.group(2).strip("_").split("_") if x]""",
+   """m.group(2).strip("_").split("_")]""", "C25-R5"),
+  ("m7-unknown-ref-looked-up", M, """for c in groupby_colrefs
+                       if c in columns_map_by_ref]""", """for c in groupby_colrefs]""", "C25-R5"),
   ("returns-fresh-list", M, "  return migration_actions\n", "  return list(all_migrations)\n", "C25-R1"),
   ("stamp-only-when-upgrading", M, """  migration_actions.append(actions.UpdateRecord('_grist_DocInfo', 1, {
     'schemaVersion': schema.SCHEMA_VERSION
